@@ -24,6 +24,9 @@ type accCase struct {
 	Payload spec.Hex    `json:"payload"` // 2*count bytes
 	Default uint8       `json:"default_order"`
 	Access  spec.Access `json:"access"`
+	// Before: accesses made on the same view first (their results are not judged): the value of Access is determined by the
+	// wire bytes alone, so it must not depend on what was read earlier
+	Before []spec.Access `json:"before,omitempty"`
 }
 
 func view(c accCase) (*packet.Registers, []byte, error) {
@@ -61,6 +64,9 @@ func runAcc(c accCase) harness.Result {
 				panicked = p
 			}
 		}()
+		for _, b := range c.Before {
+			_, _ = cat.CallAccess(regs, b)
+		}
 		got, gerr = cat.CallAccess(regs, c.Access)
 	}()
 	a := c.Access
@@ -81,6 +87,10 @@ func runAcc(c accCase) harness.Result {
 		}
 	}
 	labels := []string{"pos:" + pos, "kind:" + a.Kind}
+	if len(c.Before) > 0 {
+		labels = append(labels, "after-earlier-reads")
+		desc += fmt.Sprintf(" after %d earlier reads on the same view (first: %s addr=%d len=%d order=%d)", len(c.Before), c.Before[0].Kind, c.Before[0].Addr, c.Before[0].Length, c.Before[0].Order)
+	}
 	if c.Start+count == 65536 {
 		labels = append(labels, "window-ends-at-65535")
 	}
@@ -163,7 +173,20 @@ func genAcc(t *rapid.T) accCase {
 	if rapid.Bool().Draw(t, "with_default") {
 		def = rapid.SampledFrom(spec.DocumentedOrders[1:]).Draw(t, "default_order")
 	}
-	return accCase{Start: start, Payload: gen.Payload(t, "payload", 2*count), Default: def, Access: genAccess(t, start, count)}
+	c := accCase{Start: start, Payload: gen.Payload(t, "payload", 2*count), Default: def}
+	if rapid.IntRange(0, 3).Draw(t, "earlier_reads") == 0 {
+		for i, n := 0, rapid.IntRange(1, 2).Draw(t, "n_before"); i < n; i++ {
+			b := genAccess(t, start, count)
+			if rapid.Bool().Draw(t, "before_string") {
+				b.Kind = rapid.SampledFrom([]string{"String", "StringWithByteOrder"}).Draw(t, "before_kind")
+				b.Addr = rapid.IntRange(start, start+count-1).Draw(t, "before_addr")
+				b.Length = rapid.IntRange(1, 2*(start+count-b.Addr)).Draw(t, "before_len")
+			}
+			c.Before = append(c.Before, b)
+		}
+	}
+	c.Access = genAccess(t, start, count)
+	return c
 }
 
 var chkAcc = harness.Define("typed-access", genAcc, runAcc)
